@@ -210,7 +210,7 @@ Lemma placed_resolve (ms' : segs) dsid off tsid taddr raw oldlen pads :
   placed ms' dsid off tsid taddr raw oldlen pads -> raw_word raw ->
   0 <= off <= 4294967288 -> off mod 8 = 0 -> 0 <= taddr <= 4294967288 -> taddr mod 8 = 0 ->
   0 <= tsid < 4294967296 -> zlen ms' <= 4294967296 ->
-  (forall i, 0 <= oldlen i <= 4294967288 - 16 /\ oldlen i mod 8 = 0) ->
+  (forall p, In p pads -> 0 <= r_start p /\ r_start p + r_size p <= 4294967288 /\ r_start p mod 8 = 0) ->
   resolve_ptr ms' dsid off = (let '(t, rs) := decode_obj ms' tsid taddr raw in (t, pads ++ rs)).
 Proof.
   intros Hp (Rw & Rt & Ro & Rnz) Hoff Hoa Hta Htm Hts Hns Hol.
@@ -226,7 +226,7 @@ Proof.
     rewrite (decode_obj_eq ms' dsid (off + 8) w taddr raw); try congruence; [|rewrite Q2, Ro; lia].
     destruct (decode_obj ms' dsid taddr raw). reflexivity.
   - (* far *)
-    destruct (Hol tsid) as [P1 P2]. rewrite <- Epa in P1, P2.
+    destruct (Hol _ (or_introl eq_refl)) as (P0 & P1 & P2). cbn [r_start r_size] in P0, P1, P2.
     unfold resolve_ptr. rewrite W1.
     destruct (fields_far tsid padAddr Hts ltac:(lia) P2) as (F0 & F1 & F2 & F3 & F4 & F5). cbv zeta in *.
     set (fw := rawFarPointer tsid padAddr) in *.
@@ -242,7 +242,7 @@ Proof.
     rewrite (decode_obj_eq ms' tsid (padAddr + 8) pw taddr raw); try congruence; [|rewrite Q2, Ro; lia].
     destruct (decode_obj ms' tsid taddr raw). reflexivity.
   - (* double far *)
-    destruct (Hol psid) as [P1 P2]. rewrite <- Epa in P1, P2.
+    destruct (Hol _ (or_introl eq_refl)) as (P0 & P1 & P2). cbn [r_start r_size] in P0, P1, P2.
     destruct (word_at_range _ _ _ _ W2) as (G1 & G2 & G3).
     destruct (word_at_range _ _ _ _ W3) as (G4 & G5 & G6).
     assert (Hpsid : 0 <= psid < 4294967296) by lia.
@@ -738,4 +738,161 @@ Proof.
     assert (Ha : In (obj_reg h) (regsO objs)) by (unfold regsO; right; apply in_map; exact Hh).
     pose proof (hi_cross _ _ _ H _ _ Ha Hr) as D. pose proof (hi_pads _ _ _ H r Hr) as Pz.
     destruct r as [rs rst rsz]. cbv [reg_disjoint obj_reg r_seg r_start r_size] in *. lia.
+Qed.
+
+(* ------------------------------------------------------------------ setting a pointer slot *)
+Lemma f_off_ptr_offset w : ptr_offset w = f_off w.
+Proof. rewrite ptr_offset_spec. unfold signed, bits, f_off, two30. cbv zeta. reflexivity. Qed.
+
+Lemma raw_word_ok raw : raw_word raw -> raw_ok raw.
+Proof.
+  intros (R0 & R1 & R2 & R3). unfold raw_ok, word64. split; [exact R0|]. split; [exact R1|]. split.
+  - rewrite f_off_ptr_offset. exact R2.
+  - intros ->. cbn in R3. lia.
+Qed.
+
+(* segments stay addressable under place *)
+Lemma place_small w dsid off tsid taddr raw w' :
+  inv (w_dst w) -> segs_small (w_dst w) -> 0 <= dsid < nsegs (w_dst w) -> 0 <= tsid < nsegs (w_dst w) ->
+  place w dsid off tsid taddr raw = Ok w' -> segs_small (w_dst w').
+Proof.
+  intros Hinv Hsm Hd Ht. set (m := w_dst w) in *. unfold place. fold m.
+  assert (W : forall m1 m2 sid a v, segs_small m1 -> 0 <= sid -> writeRawPointer m1 sid a v = Ok m2 -> segs_small m2).
+  { intros m1 m2 sid a v S Hs E. apply writeRawPointer_wrote in E; auto. intros i.
+    destruct (Z_lt_ge_dec i 0) as [L|G].
+    - unfold mem, get_seg. replace (Z.to_nat i) with O by lia. pose proof (wrote_len _ _ _ _ _ 0 E ltac:(lia)) as X.
+      unfold mem, get_seg in X. cbn [Z.to_nat] in X. rewrite X. apply (S 0).
+    - rewrite (wrote_len _ _ _ _ _ i E) by lia. apply S. }
+  assert (A : forall sid sz m1 s1 a, 0 <= sid < nsegs m -> 0 <= sz -> alloc m sid sz = Ok (m1, s1, a) -> segs_small m1 /\ inv m1 /\ 0 <= s1 /\ nsegs m <= nsegs m1).
+  { intros sid sz m1 s1 a Hs Hz E.
+    destruct (alloc_keeps _ _ _ _ _ _ Hinv Hs Hz E) as (_ & I1 & N1 & S1 & AD & L1 & _ & _ & _ & MX).
+    destruct Hinv as [Hwf Har].
+    destruct (alloc_mem _ _ _ _ _ _ Hwf Har Hs Hz E) as (_ & _ & _ & _ & _ & _ & _ & _ & _ & A10 & _).
+    split; [|split; [exact I1|split; lia]]. intros i.
+    destruct (Z.eq_dec i s1) as [->|Hne]; [exact MX|].
+    destruct (Z_lt_ge_dec i 0) as [L|G].
+    - unfold mem, get_seg. replace (Z.to_nat i) with O by lia.
+      destruct (Z.eq_dec 0 s1) as [<-|H0]; [exact MX|]. pose proof (A10 0 ltac:(lia) H0) as X. unfold mem, get_seg in X.
+      cbn [Z.to_nat] in X. rewrite X. apply (Hsm 0).
+    - rewrite A10 by lia. apply Hsm. }
+  destruct (tsid =? dsid).
+  - unfold lift0. destruct (writeRawPointer m dsid off _) as [m'| |] eqn:EW; cbn [bind]; try discriminate.
+    intros H. apply Ok_inj in H. subst w'. cbn [w_dst w_set_dst]. eapply W; eauto. lia.
+  - destruct (hasCapacity (get_seg m tsid) 8).
+    + destruct (alloc m tsid 8) as [[[m1 s1] padAddr]| |] eqn:EA; cbn [bind]; try discriminate.
+      assert (H08 : 0 <= 8) by lia. destruct (A _ _ _ _ _ Ht H08 EA) as (S1 & I1 & P1 & N1).
+      destruct (writeRawPointer m1 tsid padAddr _) as [m2| |] eqn:EW2; cbn [bind]; try discriminate.
+      unfold lift0. destruct (writeRawPointer m2 dsid off _) as [m3| |] eqn:EW3; cbn [bind]; try discriminate.
+      intros H. apply Ok_inj in H. subst w'. cbn [w_dst w_set_dst].
+      eapply W; [eapply W; [exact S1| |exact EW2]| |exact EW3]; lia.
+    + destruct (alloc m dsid 16) as [[[m1 psid] padAddr]| |] eqn:EA; cbn [bind]; try discriminate.
+      assert (H016 : 0 <= 16) by lia. destruct (A _ _ _ _ _ Hd H016 EA) as (S1 & I1 & P1 & N1).
+      destruct (writeRawPointer m1 psid padAddr _) as [m2| |] eqn:EW2; cbn [bind]; try discriminate.
+      destruct (writeRawPointer m2 psid _ raw) as [m3| |] eqn:EW3; cbn [bind]; try discriminate.
+      unfold lift0. destruct (writeRawPointer m3 dsid off _) as [m4| |] eqn:EW4; cbn [bind]; try discriminate.
+      intros H. apply Ok_inj in H. subst w'. cbn [w_dst w_set_dst].
+      eapply W; [eapply W; [eapply W; [exact S1| |exact EW2]| |exact EW3]| |exact EW4]; lia.
+Qed.
+
+(* a slot position: existing, aligned, inside root word or an object *)
+Lemma slot_geometry m objs pads q :
+  hinv m objs pads -> In q ((0, 0) :: flat_map slots objs) ->
+  0 <= fst q < nsegs m /\ 0 <= snd q /\ snd q mod 8 = 0 /\ snd q + 8 <= zlen (mem m (fst q)) /\
+  exists r, In r (regsO objs) /\ r_seg r = fst q /\ r_start r <= snd q /\ snd q + 8 <= r_start r + r_size r.
+Proof.
+  intros H Hq. destruct Hq as [<-|Hq].
+  - pose proof (hi_in _ _ _ H root_reg ltac:(unfold all_regs, regsO; left; reflexivity)) as I0.
+    unfold in_msg, root_reg in I0. cbn [r_seg r_start r_size] in I0.
+    destruct (in_seg_elim _ _ _ _ I0) as (G1 & G2 & G3 & G4 & G5). rewrite zlen_bm in G1. rewrite seg_len_bm in G4.
+    cbn [fst snd]. repeat split; try lia. exists root_reg. split; [left; reflexivity|]. cbn. lia.
+  - apply in_flat_map in Hq. destruct Hq as (h & Hh & Hq).
+    destruct (hi_good _ _ _ H h Hh) as [V G].
+    destruct (slot_in_obj _ _ _ V G Hq) as (S1 & S2 & S3 & S4).
+    destruct G as (_ & _ & Gi & _). destruct (in_seg_elim _ _ _ _ Gi) as (G1 & G2 & G3 & G4 & G5).
+    rewrite zlen_bm in G1. rewrite seg_len_bm in G4. rewrite S1.
+    repeat split; try lia. exists (obj_reg h). split; [right; apply in_map; exact Hh|].
+    unfold obj_reg in *. cbn [r_seg r_start r_size] in *. lia.
+Qed.
+
+Lemma hinv_place m objs pads w q ht raw w' :
+  w_dst w = m -> hinv m objs pads ->
+  In q ((0, 0) :: flat_map slots objs) -> In ht objs ->
+  (p_kind ht = KStruct -> os_isZero (p_size ht) = false) ->
+  raw_of ht = Ok raw ->
+  place w (fst q) (snd q) (p_seg ht) (p_off ht) raw = Ok w' ->
+  nsegs (w_dst w') < 4294967296 ->
+  exists pads', hinv (w_dst w') objs (pads ++ pads').
+Proof.
+  intros Ew H Hq Hht Hnz Hraw Hpl Hns'. subst m. set (m := w_dst w) in *.
+  destruct (slot_geometry _ _ _ _ H Hq) as (Q1 & Q2 & Q3 & Q4 & (rq & Rq1 & Rq2 & Rq3 & Rq4)).
+  destruct (hi_good _ _ _ H ht Hht) as [Vt Gt].
+  destruct (obj_decode (bm_data m) ht Vt Gt Hnz) as (raw' & Er & Rw & _). rewrite Hraw in Er. apply Ok_inj in Er. subst raw'.
+  pose proof Gt as (_ & Gs & Gi & Go). destruct (in_seg_elim _ _ _ _ Gi) as (T1 & T2 & T3 & T4 & T5).
+  rewrite zlen_bm in T1. rewrite seg_len_bm in T4.
+  destruct (hi_inv _ _ _ H) as [Hwf Har]. pose proof (hi_small _ _ _ H) as Hsm. pose proof (hi_nsegs _ _ _ H) as Hns.
+  assert (Hpre : place_pre m (fst q) (snd q) (p_seg ht) (p_off ht) raw).
+  { unfold place_pre. repeat split; auto; try (apply raw_word_ok; exact Rw); try (unfold nsegs in *; lia).
+    all: try (apply (raw_word_ok _ Rw)). }
+  destruct (place_layout _ _ _ _ _ _ _ Hpre Hpl) as (pads' & Hpd).
+  destruct (place_keeps _ _ _ _ _ _ _ (conj Hwf Har) Q1 T1 Hpl) as (K & I' & N' & _).
+  pose proof (place_small _ _ _ _ _ _ _ (conj Hwf Har) Hsm Q1 T1 Hpl) as Sm'.
+  set (m' := w_dst w') in *.
+  assert (G : grows (bm_data m) (bm_data m')) by (eapply keeps_grows; eauto).
+  exists pads'.
+  (* the new pads: fresh, inside the new message, of positive size *)
+  assert (PF : forall p, In p pads' -> 0 < r_size p /\ zlen (mem m (r_seg p)) <= r_start p /\ in_msg (bm_data m') p).
+  { intros p Hp. destruct Hpd as [E W|padAddr Hne Epa W1 W2|psid padAddr Hne Hps Epa W1 W2 W3]; [destruct Hp| |]; cbv beta in Epa; fold m in Epa.
+    - destruct Hp as [<-|[]]. cbn [r_size r_seg r_start]. split; [lia|]. split; [lia|].
+      destruct (word_at_range _ _ _ _ W2) as (X1 & X2 & X3). unfold in_msg. cbn [r_size r_seg r_start].
+      apply in_seg_intro; subst padAddr; try lia; try apply zlen_nonneg.
+      pose proof (get_seg_wf m (p_seg ht) Hwf) as [_ A8]. unfold blen in A8. exact A8.
+    - destruct Hp as [<-|[]]. cbn [r_size r_seg r_start]. split; [lia|]. split; [lia|].
+      destruct (word_at_range _ _ _ _ W3) as (X1 & X2 & X3). unfold in_msg. cbn [r_size r_seg r_start].
+      apply in_seg_intro; subst padAddr; try lia; try apply zlen_nonneg.
+      pose proof (get_seg_wf m psid Hwf) as [_ A8]. unfold blen in A8. exact A8. }
+  assert (InO : forall a, In a (regsO objs) -> in_msg (bm_data m) a).
+  { intros a Ha. apply (hi_in _ _ _ H). unfold all_regs. apply in_or_app. left. exact Ha. }
+  assert (InP : forall a, In a pads -> in_msg (bm_data m) a).
+  { intros a Ha. apply (hi_in _ _ _ H). unfold all_regs. apply in_or_app. right. exact Ha. }
+  assert (L1 : (length pads' <= 1)%nat) by (destruct Hpd; cbn; lia).
+  constructor; auto.
+  - intros x Hx. destruct (hi_good _ _ _ H x Hx) as [V Gx]. split; [exact V|eapply good_mono; eauto].
+  - intros r Hr. unfold all_regs in Hr. apply in_app_or in Hr. destruct Hr as [Hr|Hr].
+    + eapply in_msg_mono; eauto.
+    + apply in_app_or in Hr. destruct Hr as [Hr|Hr]; [eapply in_msg_mono; eauto|apply PF; exact Hr].
+  - intros r Hr. apply in_app_or in Hr. destruct Hr as [Hr|Hr]; [apply (hi_pads _ _ _ H); exact Hr|apply PF; exact Hr].
+  - apply (hi_disjO _ _ _ H).
+  - destruct pads' as [|p0 [|p1 ps]]; [rewrite app_nil_r; apply (hi_disjP _ _ _ H)| |cbn in L1; lia].
+    apply ord_disjoint_snoc; [apply (hi_disjP _ _ _ H)|].
+    intros a Ha. apply (fresh_disjoint m); auto. right. apply (PF p0). left. reflexivity.
+  - intros a p Ha Hp. apply in_app_or in Hp. destruct Hp as [Hp|Hp]; [apply (hi_cross _ _ _ H); auto|].
+    apply (fresh_disjoint m); auto. right. apply (PF p). exact Hp.
+  - intros q' Hq'.
+    destruct (slot_geometry _ _ _ _ H Hq') as (P1 & P2 & P3 & P4 & (rq' & Rp1 & Rp2 & Rp3 & Rp4)).
+    assert (DEC : (fst q' = fst q /\ snd q' = snd q) \/ ~ (fst q' = fst q /\ snd q' = snd q)) by lia.
+    destruct DEC as [[E1 E2]|NE].
+    + (* the slot just written *)
+      assert (Eq : q' = q) by (destruct q, q'; cbn in *; congruence). subst q'.
+      assert (PR := placed_resolve (bm_data m') (fst q) (snd q) (p_seg ht) (p_off ht) raw (fun i => zlen (mem m i)) pads' Hpd Rw).
+      assert (Gt' : good (bm_data m') ht) by (eapply good_mono; eauto).
+      destruct (obj_decode (bm_data m') ht Vt Gt' Hnz) as (raw2 & Er2 & _ & DE). rewrite Hraw in Er2. apply Ok_inj in Er2. subst raw2.
+      exists (tgt_of ht), (pads' ++ [obj_reg ht]). split; [|split].
+      * rewrite PR; try lia.
+        -- rewrite DE. reflexivity.
+        -- pose proof (Hsm (fst q)). unfold maxSegmentSize in *. lia.
+        -- rewrite zlen_bm. lia.
+        -- intros p Hp. destruct (PF p Hp) as (Z1 & Z2 & Z3). unfold in_msg in Z3.
+           destruct (in_seg_elim _ _ _ _ Z3) as (Y1 & Y2 & Y3 & Y4 & Y5). rewrite seg_len_bm in Y4.
+           pose proof (Sm' (r_seg p)). unfold maxSegmentSize in *. lia.
+      * unfold tgt_of. destruct (p_kind ht); exact I.
+      * right. exists pads', (obj_reg ht). split; [reflexivity|]. split; [intros x Hx; apply in_or_app; right; exact Hx|].
+        right. exists ht. auto.
+    + apply (slot_ok_frame m m' (Rword (fst q) (snd q)) pads objs); auto.
+      * intros k Hk [X1 X2]. lia.
+      * intros r Hr k Hk [X1 X2].
+        pose proof (hi_cross _ _ _ H _ _ Rq1 Hr) as D. pose proof (hi_pads _ _ _ H r Hr) as Pz.
+        destruct r as [rs rst rsz]. destruct rq as [qs qst qsz]. cbv [reg_disjoint r_seg r_start r_size] in *. lia.
+      * intros x Hx. apply in_or_app. left. exact Hx.
+      * apply incl_refl.
+      * apply (hi_slots _ _ _ H). exact Hq'.
 Qed.
